@@ -168,7 +168,7 @@ func (fv *FV) callFunc(st *State, call *ast.CallExpr, callee *types.Func, sel *a
 	fv.evalArgs(st, call, sig)
 	fv.note("uninterpreted call (results unconstrained): " + callee.FullName())
 	// reference-typed argument locations may be modified
-	ms := &modSet{objs: map[types.Object]bool{}, ghosts: map[string]bool{}}
+	ms := &modSet{objs: map[types.Object]bool{}, ghosts: map[string]bool{}, direct: map[types.Object]bool{}}
 	fv.callMods(call, ms)
 	fv.havoc(st, ms)
 	return fv.freshResults(st, call, callee.Name())
@@ -295,6 +295,9 @@ func (fv *FV) applyContract(st *State, call *ast.CallExpr, fc *FuncContract, sel
 			fv.abort(call.Pos(), "modifies %s of %s: no such parameter", m, fc.Name)
 		}
 		post[m] = fv.fresh(m+"_post", old.Sort)
+		if old.Sort.Kind == KPtr {
+			st.assume(tEq(tEq(post[m], ptrNil(old.Sort)), tEq(old, ptrNil(old.Sort))))
+		}
 	}
 	var results []Term
 	for i := 0; i < sig.Results().Len(); i++ {
